@@ -31,6 +31,7 @@ var transTargets = []transTarget{
 	// C07 / C19
 	{"node/kafkaconsumer/recoveryconsumer.go", "RecoveryConsumer", "recoverSingleEvent", "", "recoverSingleEvent"},
 	{"node/kafkaconsumer/kafkaconsumer.go", "KafkaConsumer", "processEvent", "", "kcProcessEvent"},
+	{"node/kafkaconsumer/recoveryconsumer.go", "RecoveryConsumer", "processError", "loop0", "truncationBody"},
 	// C09
 	{"node/kafkaconsumer/kafkaconsumer.go", "KafkaConsumer", "revokePartitionAssignments", "", "kcRevoke"},
 	{"node/kafkaconsumer/recoveryconsumer.go", "RecoveryConsumer", "partitionAssignmentsChanged", "loop0", "changedBody"},
